@@ -44,8 +44,18 @@ class LocalFileHandler(abc.FileHandler):
             raise RuntimeError(
                 f"File already written in this transaction: {normpath}"
             )
-        self.__transaction.add(normpath)
         tmppath = _tmpname(normpath)
+        # Temporary names are derived from (possibly truncated) file
+        # names. Writing through a temporary file that is, or belongs
+        # to, another file of this transaction would mix up contents.
+        taken = {normpath} | self.__transaction
+        taken_tmp = {_tmpname(i) for i in self.__transaction}
+        if tmppath in taken | taken_tmp or normpath in taken_tmp:
+            raise RuntimeError(
+                "Temporary file name clashes with another file"
+                f" in this transaction: {normpath}"
+            )
+        self.__transaction.add(normpath)
         return (self.path / tmppath).open("wb")
 
     @contextlib.contextmanager
@@ -119,7 +129,11 @@ class LocalFileHandler(abc.FileHandler):
 def _tmpname(filename: pathlib.PurePosixPath) -> pathlib.PurePosixPath:
     prefix = "."
     suffix = ".tmp"
-    name = filename.name[0 : 255 - (len(prefix) + len(suffix))]
+    # File systems limit the length of a name in bytes, not characters.
+    limit = 255 - (len(prefix) + len(suffix))
+    name = filename.name
+    while len(os.fsencode(name)) > limit:
+        name = name[:-1]
     return filename.with_name(f"{prefix}{name}{suffix}")
 
 
